@@ -127,11 +127,13 @@ def explore(chk):
             cs = capio.build_set(abstract)
             case = {"writer": wname, "set": {l: [(repr(a), repr(b_), [n[1] for n in ns if n[0] == "T"]) for (a, b_, ns) in caps] for l, caps in abstract.items()}}
             try:
-                doc = W().write(cs)
+                doc = core.POOL.get(W).write(cs)
             except Exception as e:
                 chk.case(key=json.dumps(case, sort_keys=True), nontrivial=True)
                 chk.property_failure(dict(case, error=repr(e)), "%s writer raised on a valid caption set" % wname)
                 continue
+            chk.remember((wname, "write", json.dumps(case["set"], default=str)[:800]),
+                         (lambda W=W, abstract=abstract: W().write(capio.build_set(abstract))), doc, every=9, cap=120)
             case["output"] = doc if len(doc) < 3000 else doc[:3000]
             chk.case(key=json.dumps(case, sort_keys=True), nontrivial=len(first) > 1 or frac,
                      sample={"writer": wname, "times": [(repr(a), repr(b_)) for a, b_ in first], "output": doc[:400]} if chk.count_get("w_" + wname) in (1,) else None)
@@ -239,6 +241,7 @@ def explore(chk):
                         M.append((st, [] if ps == "_" else [(int(x.split(".")[0]), x.split(".")[1] == "1", int(x.split(".")[2])) for x in ps.split(" ")]))
                     if M != got and ordered:
                         chk.correspondence_failure(dict(case, parsed=str(got), model=str(M)), "sami sync plan: implementation and model differ")
+    chk.recheck("writer output")
 
 
 def replay(path):
